@@ -421,6 +421,16 @@ def do_call(spec):
                 if before != [snap(a) for a in args]:
                     raise AssertionError("ordered_covering modified the table it was given")
                 res.append([table_canon({(0, 0): t2}), sorted((list(k), sorted(map(list, v))) for k, v in al2.items())])
+                # the three public single-table minimisers on the SAME kept list (entries of mixed generality, not in
+                # order): each must hand back a new table and leave the caller's list as it was
+                from rig.routing_table import minimise_table
+                for label, call in (("oc.minimise", lambda: ordered_covering.minimise(t, None)),
+                                    ("rdr.minimise", lambda: remove_default_routes.minimise(t, None)),
+                                    ("minimise_table", lambda: minimise_table(t, None))):
+                    out_t = call()
+                    if before != [snap(a) for a in args]:
+                        raise AssertionError("%s modified the table it was given" % label)
+                    res.append([label, table_canon({(0, 0): out_t})])
                 if combined is None:
                     combined = al2
                 combined.update(al2)
